@@ -48,18 +48,20 @@ func newWorld() *world {
 		}
 		return tx
 	}
+	// prices are deliberately not multiples of 100 wei: the replacement threshold old*(100+bump)/100 then
+	// differs from formulas that divide first
 	one := big.NewInt(1)
 	never := new(big.Int).Mul(bal, big.NewInt(2))
 	add := func(name string, tx *types.Transaction) {
 		w.names = append(w.names, name)
 		w.txs = append(w.txs, tx)
 	}
-	add("A0p100", mk(0, 0, 100*gwei, one, 21000))
-	add("A0p109", mk(0, 0, 109*gwei, one, 21000))
-	add("A0p110", mk(0, 0, 110*gwei, one, 21000))
-	add("A0big", mk(0, 0, 100*gwei, w.big, 21000))
-	add("A1p100", mk(0, 1, 100*gwei, one, 21000))
-	add("A1p110", mk(0, 1, 110*gwei, one, 21000))
+	add("A0p100", mk(0, 0, 100*gwei+50, one, 21000))
+	add("A0p109", mk(0, 0, 110*gwei+52, one, 21000)) // 3 wei below the exact 10% bump of A0p100 (110000000055)
+	add("A0p110", mk(0, 0, 110*gwei+55, one, 21000)) // exactly the bump
+	add("A0big", mk(0, 0, 100*gwei+50, w.big, 21000))
+	add("A1p100", mk(0, 1, 100*gwei+50, one, 21000))
+	add("A1p110", mk(0, 1, 110*gwei+55, one, 21000))
 	add("A1never", mk(0, 1, 100*gwei, never, 21000))
 	add("A2p100", mk(0, 2, 100*gwei, one, 21000))
 	add("A2big", mk(0, 2, 100*gwei, w.big, 21000))
